@@ -281,6 +281,11 @@ def eval_repeat(ref):
         outs.append(TI.dumps(obj) if ref[0] == "ti" else obj.dumps())
     out = {"all_identical": len(set(outs)) == 1}
     if ref[0] == "ti":
+        # dumps that name a main variant in between: a later dump that names none must give the first bytes again
+        for uid in sorted(v.uid for v in obj.variants.variants.values()):
+            TI.dumps(obj, main_variant=uid)
+        out["all_identical"] = out["all_identical"] and TI.dumps(obj) == text
+    if ref[0] == "ti":
         # the object that has been dumped is given other content and dumped again: the bytes must be those of a NEW object with
         # that content (nothing of the earlier dumps - e.g. the old arch in the platform list - may stick to it)
         content = content_of(ref)
